@@ -113,8 +113,18 @@ def errName : Err → String
 
 def tsKnownFn (n : Nat) : Bool := Fit.Gen.Wire.tsKnownMesgs.contains n
 
+def fnv64 (h : UInt64) (s : String) : UInt64 :=
+  s.foldl (fun h c => (h ^^^ c.toNat.toUInt64) * 0x100000001b3) h
+
+/-- digest of the field payloads of a record as `Wire.decodeRecord` cut them: "<num>.<size>.<hex>;…|<num>.<size>.<idx>.<hex>;…"
+(FNV-1a 64; the harness computes the same from the bytes the real raw decoder hands out, cut by the live definition) -/
+def payloadDigest (r : WRec) : String :=
+  let fs := String.join (r.fields.map fun (f, b) => s!"{f.num}.{f.size}.{hex b};")
+  let ds := String.join (r.devs.map fun (f, b) => s!"{f.num}.{f.size}.{f.idx}.{hex b};")
+  hexN 16 (fnv64 (0xcbf29ce484222325 : UInt64) (fs ++ "|" ++ ds)).toNat
+
 /-- `descs`: the field descriptions the decoder holds when it decodes the developer fields of the record (the record's
-own description included); the last number is `len(mesg.DeveloperFields)` -/
+own description included); the last number is `len(mesg.DeveloperFields)`; `p…`: the digest of the field payloads -/
 def showItem (descs : List Desc) : Item → String
   | .def_ _ d =>
     let fs := ";".intercalate (d.fields.map fun f => s!"{f.num}.{f.size}.{f.bt}")
@@ -123,7 +133,7 @@ def showItem (descs : List Desc) : Item → String
   | .data r =>
     let ts := match r.ts with | some t => toString t | none => "-"
     let n := (readFields r.fields).length + (if r.ts.isSome then 1 else 0)
-    s!" R{r.header}.{r.num}.{ts}.{n}.{(devsKept descs r.devs).length}"
+    s!" R{r.header}.{r.num}.{ts}.{n}.{(devsKept descs r.devs).length}.p{payloadDigest r}"
 
 def showSeq (f : DecFit) : String :=
   let n := (f.items.filter fun | .data _ => true | _ => false).length
@@ -197,22 +207,22 @@ def execRtW (args : List String) : String :=
       let bs := encodeChain i.o accepted
       showStream (decodeStream tsKnownFn true (bs.length + 1) true bs)
 
-/-- records of one decoded sequence as the implementation reported them: (num, ts, nfields, ndevfields) -/
-def parseEvents (toks : List String) : Option (List (List (Nat × Option Nat × Nat × Nat) × Nat)) :=
-  let rec go : List String → List (Nat × Option Nat × Nat × Nat) → List (List (Nat × Option Nat × Nat × Nat) × Nat) →
-      Option (List (List (Nat × Option Nat × Nat × Nat) × Nat))
+/-- records of one decoded sequence as the implementation reported them: (num, ts, nfields, ndevfields, payload digest) -/
+def parseEvents (toks : List String) : Option (List (List (Nat × Option Nat × Nat × Nat × String) × Nat)) :=
+  let rec go : List String → List (Nat × Option Nat × Nat × Nat × String) → List (List (Nat × Option Nat × Nat × Nat × String) × Nat) →
+      Option (List (List (Nat × Option Nat × Nat × Nat × String) × Nat))
     | [], [], acc => some acc.reverse
     | [], _ :: _, _ => none          -- records after the last completed sequence
     | t :: ts, cur, acc =>
       if t.startsWith "D" then go ts cur acc
       else if t.startsWith "R" then
         match (t.drop 1).toString.splitOn "." with
-        | [_, n, tsS, k, kd] =>
+        | [_, n, tsS, k, kd, pd] =>
           match n.toNat?, k.toNat?, kd.toNat? with
           | some n, some k, some kd =>
             let tsV := if tsS == "-" then some none else tsS.toNat?.map some
             match tsV with
-            | some v => go ts ((n, v, k, kd) :: cur) acc
+            | some v => go ts ((n, v, k, kd, pd) :: cur) acc
             | none => none
           | _, _, _ => none
         | _ => none
@@ -228,16 +238,22 @@ def parseEvents (toks : List String) : Option (List (List (Nat × Option Nat × 
 /-- the property on one message: number, and either all fields back, or the original timestamp
 reconstructed and the other fields back (counted by the number of non-empty fields); every non-empty developer
 field that has a field description (`descs`: those written so far in the sequence, this message included) back -/
-def recOK (arch : Nat) (descs : List Desc) (m : WMsg) (r : Nat × Option Nat × Nat × Nat) : Bool :=
+def recOK (arch : Nat) (descs : List Desc) (m : WMsg) (r : Nat × Option Nat × Nat × Nat × String) : Bool :=
   let nz (fs : List WField) := (fs.filter fun f => f.data.length != 0).length
+  -- the field payloads the record was read with (the harness's digest of the REAL record bytes cut by the live definition) are
+  -- the bytes that were written: every field (without the timestamp the encoder moved into the header) and developer field
+  let wrote (fs : List WField) : String := "p" ++ payloadDigest
+    ⟨0, m.num, arch, none, fs.map (fun f => (⟨f.num, f.data.length % 256, f.bt⟩, f.data)),
+      m.devs.map (fun f => (⟨f.num, f.data.length % 256, f.idx⟩, f.data))⟩
   r.1 == m.num &&
-  r.2.2.2 == (m.devs.filter fun d => (findDesc descs ⟨d.num, d.data.length % 256, d.idx⟩).isSome && d.data.length != 0).length &&
+  r.2.2.2.1 == (m.devs.filter fun d => (findDesc descs ⟨d.num, d.data.length % 256, d.idx⟩).isSome && d.data.length != 0).length &&
   match r.2.1 with
-  | none => r.2.2.1 == nz m.fields
-  | some t => t == tsOf arch m && tsOf arch m != u32Invalid && r.2.2.1 == nz (removeFirst tsFieldNum m.fields) + 1
+  | none => r.2.2.1 == nz m.fields && r.2.2.2.2 == wrote m.fields
+  | some t => t == tsOf arch m && tsOf arch m != u32Invalid && r.2.2.1 == nz (removeFirst tsFieldNum m.fields) + 1 &&
+      r.2.2.2.2 == wrote (removeFirst tsFieldNum m.fields)
 
 /-- `recOK` over the messages of a sequence, the written field descriptions threaded as the decoder records them -/
-def recsOK (arch : Nat) : List Desc → List WMsg → List (Nat × Option Nat × Nat × Nat) → Bool
+def recsOK (arch : Nat) : List Desc → List WMsg → List (Nat × Option Nat × Nat × Nat × String) → Bool
   | _, [], [] => true
   | descs, m :: ms, r :: rs =>
     let descs' := noteDesc descs m.num (wireFields m)
